@@ -7,5 +7,6 @@ import (
 )
 
 func TestReplay(t *testing.T) {
-	vrt.ReplayMain(map[string]func(){"Harness_pairs": Harness_pairs, "Harness_triples": Harness_triples})
+	Setup()
+	vrt.ReplayMain(map[string]func(){"Harness_pairs": Harness_pairs, "Harness_triples": Harness_triples, "Harness_shared": Harness_shared})
 }
